@@ -116,7 +116,7 @@ def generate(rng, tier):
     for _ in range(12000 if big else 1200):
         nrec = rng.choice([0, 1, 1, 2])
         recs = rng.randrange(1, 4)
-        fl = ''.join(rng.choice('iii12') for _ in range(rng.choice([0, 1, 1, 2])))
+        fl = ''.join(rng.choice('iii120') for _ in range(rng.choice([0, 1, 1, 2])))
         nshut = rng.choice([0, 0, 1])
         xs = rng.choice(['s', 's', 'sf', 'sF', 'sS'])
         nth = 1 + nrec + len(fl) + nshut + 3      # a few ids for collect threads
